@@ -194,7 +194,8 @@ fn iface_body(idl: &Idl, stem: &str, cases: &[(usize, CallCase)]) -> String {
                 for (i, a) in c.script.iter().enumerate() {
                     s.push_str(&format!("                            {} => outcome(r, {}),\n", i, expected_outcome(idl, m, a)));
                 }
-                s.push_str("                            _ => outcome(r, None, None),\n                        });\n                        idx += 1;\n                    }\n                }\n            }\n            outs\n");
+                // (after a failed read the library's iterator never ends: `continues` stays set; do not follow it for ever)
+                s.push_str(&format!("                            _ => outcome(r, None, None),\n                        }});\n                        idx += 1;\n                        if idx > {} {{ break; }}\n                    }}\n                }}\n            }}\n            outs\n", c.script.len() + 2));
             }
             _ => {
                 let exp = c.script.last().map(|a| expected_outcome(idl, m, a)).unwrap_or_else(|| "None, None".into());
